@@ -40,15 +40,15 @@ func run(r *engine.Run, only string) {
 	if !r.Quick() {
 		dense = "2^28"
 	}
-	r.Bound = "originators: 15 strings (empty, single chars, 'ab' vs 'a'+'b' splits, delimiter-like, NUL, 32x0xff, 33 chars) per field and 7 tunnel ids: 15^3 direct + 15*7*15^2 tunnel; " +
+	r.Bound = "originators: 27 strings (empty, single chars, 'ab' vs 'a'+'b' splits, delimiter-like, NUL, 32x0xff, 33 chars, case-only and leading/trailing-space variants, EIP-55 mixed-case hex with its lower/upper forms, base58, upper/lower chain ids) per field and 7 tunnel ids: 27^3 direct + 27*7*27^2 tunnel, with collision sets on the encoding and on hash(originator); " +
 		"EncodeSigning: 9 originators x 9 block times (0..2^63-1, -1) x 8 signing ids (0..2^64-1) x 12 contents; " +
 		"contents through the sealed real content router: 15 user texts (0..1001 bytes, imitations of other kinds); oracle results with clientID/calldata/result lengths {0,1,33} (thorough +32) x " +
 		"os{0,1,max} x ask{0,max} x min{0,max} x rid{1,2,max} x ans{0,max} x request_time{0,-1,max} x resolve_time{0,max} x status{0..3} (thorough + int64/int32 extremes) x 3 encoders; " +
 		"feeds lists of 0..2 signals from 4 ids (thorough 6 ids and lists of 3) x {absent,0,1,1e9,1000099999,2^64-1} x 2 encoders x block times {0,now,9999-12-31} (thorough +1); " +
 		"tunnel packets seq{0,1,max} x 25 price lists x created_at{0,1,-1,now,max} x 2 encoders; transitions 3 keys x 4 times; unknown encoders and >32-byte signal ids executed and labelled; " +
-		"real MsgRequestSignature: 2 senders x 5 memos (0..101 chars) x 4 block times x signing ids {1,2,2^64-1} x 11 contents, plus the same request twice in one block; " +
+		"real MsgRequestSignature: 2 senders x 8 memos (0..101 chars, case/space variants) x 4 block times x signing ids {1,2,2^64-1} x 11 contents, plus the same request twice in one block; " +
 		"users requesting internal kinds: 54 tunnel packets + 13 transitions + zero values x 3 senders x 2 memos, and every registered Content implementation; " +
-		"real tunnel create/fund/activate/trigger: 4^2 (thorough 5^2) destination strings x tunnel ids {1,2,2^64-1} x 2 encoders x 3 feed states x {(now,id 1),(9999-12-31,id 2^64-1)}; " +
+		"real tunnel create/fund/activate/trigger: 14^2 (thorough 15^2) destination chain x contract strings (incl. empty -> rejected, case-only / space variants, EIP-55 / lower / base58 addresses, ETH/eth) x tunnel ids {1,2,2^64-1} x 2 encoders x 3 feed states x {(now,id 1),(9999-12-31,id 2^64-1)}, plus an upper-case source chain id for tunnel id 1; signed prefix message[0:32] of every accepted request kept in an injectivity set keyed by the stored route (source chain, tunnel id, destination chain, contract) resp. (chain, requester, memo); " +
 		"real group transitions with complete DKG: 4 (thorough 7) with exec offsets 1s..7d and signing ids {next,2,2^64-1}; " +
 		"ticks: all 524287 ticks (integer boundary, boundary-1, midpoint to the next boundary), every price 1.." + dense + ", 2^64-4096..2^64-1, 2^k+-2, 10^k+-1"
 	r.Assumptions = []string{
@@ -86,7 +86,7 @@ func run(r *engine.Run, only string) {
 		tt = ts.table
 	}
 
-	e := &env{r: r, quick: r.Quick(), deadline: deadline, tt: tt, pool: newPool(), contents: newSyncCollisions(), messages: newSyncCollisions()}
+	e := &env{r: r, quick: r.Quick(), deadline: deadline, tt: tt, pool: newPool(), contents: newSyncCollisions(), messages: newSyncCollisions(), prefixes: newSyncCollisions()}
 	defer e.pool.close()
 	for _, sec := range []struct {
 		name string
